@@ -71,7 +71,7 @@ def strip_doc(body):
 class Tr:
     def __init__(self, path):
         self.path = path
-        self.tree = normalise(ast.parse(open(path).read(), filename=path))
+        self.tree = normalise(ast.parse(open(path).read(), filename=path), path)
         self.methods = {}      # (cls, pyname) -> FunctionDef
         self.kinds = {}        # (cls, pyname) -> result kind
         self.texts = {}        # (cls, pyname) -> lean lines
